@@ -58,7 +58,12 @@ def h2(ctx):
                 t = crate.bodies.get(c.callee.target) if c.callee else None
                 if t is not None and t.kind != "Closure" and t.vis != "pub" and t.file == b0.file and any(role_mentions_call(l[1], "all_slot_occurrences_mut") for l in C.iterator_loops(t)):
                     cands.append(t)
-        if len({t.id for t in cands}) == 1:
+        # several sequential phase helpers (`refresh_redundant_slots`, then `instantiate_enode`): look at the node loop with its
+        # private single-use helpers inlined
+        v = mir.inline_view(crate, b0)
+        if any(role_mentions_call(l[1], "all_slot_occurrences_mut") for l in C.iterator_loops(v)) and any(c.callee and c.callee.name == "apply_slotmap" for c in v.calls):
+            b = b0 = v
+        elif len({t.id for t in cands}) == 1:
             b = cands[0]
     # (i) occurrence loop over all_slot_occurrences_mut
     loops = C.iterator_loops(b)
